@@ -2,11 +2,8 @@
    pending.  Statements only: each theorem is closed by [exact], pinned by
    [Check] and followed by [Print Assumptions].
 
-   Findings C10-1 .. C10-6 are repaired in the repository and the model is the
-   repaired behaviour.  One input class is left open (C10-7: GR or LLGR negotiated
-   for a family that is not an address family of the session); it appears as the
-   hypothesis [Known_C10_7 evs = false] of the history theorems and as [_refuted]
-   witnesses. *)
+   Findings C10-1 .. C10-7 are repaired in the repository and the model is the
+   repaired behaviour; no theorem carries a known-class hypothesis. *)
 From Coq Require Import List NArith Bool.
 From RB Require Import Base.Val Model.Deferral Model.Gr Spec.GrSpec Proofs.Gr.
 Import ListNotations.
@@ -43,27 +40,43 @@ Print Assumptions drop_never_leaves_helper_mode.
 
 (* Stale routes exist only while a restart timer or an LLGR timer is armed or an
    End-of-RIB is awaited on the re-established session: after every step of every
-   history outside the remaining known class C10-7. *)
-Theorem stale_implies_timer_or_eor_outside_known :
+   history (sessions up with any negotiated GR / LLGR sets, announcements,
+   End-of-RIB markers, drops for every reason, failed connection attempts, timer
+   expiries, forced peer-down, admin-down in any order). *)
+Theorem stale_implies_timer_or_eor :
   forall (evs : list hevent),
-    Known_C10_7 evs = false ->
     stale_ok_along h0 evs = true /\ stale_ok (h_run h0 evs) = true.
-Proof. exact C10_stale_implies_timer_or_eor_outside_known. Qed.
-Check stale_implies_timer_or_eor_outside_known :
+Proof. exact C10_stale_implies_timer_or_eor. Qed.
+Check stale_implies_timer_or_eor :
   forall (evs : list hevent),
-    Known_C10_7 evs = false ->
     stale_ok_along h0 evs = true /\ stale_ok (h_run h0 evs) = true.
-Print Assumptions stale_implies_timer_or_eor_outside_known.
+Print Assumptions stale_implies_timer_or_eor.
 
-
-Theorem stale_implies_timer_or_eor_refuted :
-  Known_C10_7 w7 = true /\ stale_ok (h_run h0 w7) = false
-  /\ h_rtimer (h_run h0 w7) = false /\ h_ltimers (h_run h0 w7) = [] /\ h_sess (h_run h0 w7) = None.
-Proof. exact C10_stale_implies_timer_or_eor_refuted. Qed.
-Check stale_implies_timer_or_eor_refuted :
-  Known_C10_7 w7 = true /\ stale_ok (h_run h0 w7) = false
-  /\ h_rtimer (h_run h0 w7) = false /\ h_ltimers (h_run h0 w7) = [] /\ h_sess (h_run h0 w7) = None.
-Print Assumptions stale_implies_timer_or_eor_refuted.
+(* the phase / timer / route consistency behind it, as a usable corollary: in every
+   reachable state a session that is up has no timer armed and its own routes are
+   unmarked and in its families; the restart timer is armed exactly in phase
+   PeerRestarting; LLGR timers are armed only in phase LlgrStaling, for the
+   families still staling *)
+Theorem phase_timer_consistency :
+  forall (evs : list hevent),
+    let h := h_run h0 evs in
+    (forall s, h_sess h = Some s ->
+        h_rtimer h = false /\ h_ltimers h = [] /\
+        forall r, In r (h_rib h) -> r_sess r = s_gen s ->
+                  r_stale r = false /\ r_llgr r = false /\ mem (r_fam r) (s_fams s) = true)
+    /\ (h_rtimer h = true <-> exists stale llgr, h_gr h = GPeerRestarting stale llgr)
+    /\ (forall f, mem f (h_ltimers h) = true -> exists rem, h_gr h = GLlgrStaling rem /\ mem f rem = true).
+Proof. exact C10_phase_timer_consistency. Qed.
+Check phase_timer_consistency :
+  forall (evs : list hevent),
+    let h := h_run h0 evs in
+    (forall s, h_sess h = Some s ->
+        h_rtimer h = false /\ h_ltimers h = [] /\
+        forall r, In r (h_rib h) -> r_sess r = s_gen s ->
+                  r_stale r = false /\ r_llgr r = false /\ mem (r_fam r) (s_fams s) = true)
+    /\ (h_rtimer h = true <-> exists stale llgr, h_gr h = GPeerRestarting stale llgr)
+    /\ (forall f, mem f (h_ltimers h) = true -> exists rem, h_gr h = GLlgrStaling rem /\ mem f rem = true).
+Print Assumptions phase_timer_consistency.
 
 (* (a) a connection attempt that ends before Established leaves every pending
        timer, the helper phase and the routes as they were *)
@@ -127,11 +140,10 @@ Check fresh_routes_survive_purge :
     In r (h_rib (h_step h e)).
 Print Assumptions fresh_routes_survive_purge.
 
-(* ... and on every history outside C10-7 the routes of the live session are unmarked, so
-   they survive: stated on reachable states *)
+(* ... and in every reachable state the routes of the live session are unmarked, so they
+   survive the purge *)
 Theorem live_session_routes_survive_purge :
   forall (evs : list hevent) (e : hevent) (s : session) (r : route),
-    Known_C10_7 evs = false ->
     let h := h_run h0 evs in
     h_sess h = Some s -> In r (h_rib h) -> r_sess r = s_gen s ->
     (exists f, e = HEor f) ->
@@ -139,7 +151,6 @@ Theorem live_session_routes_survive_purge :
 Proof. exact C10_live_session_routes_survive_purge. Qed.
 Check live_session_routes_survive_purge :
   forall (evs : list hevent) (e : hevent) (s : session) (r : route),
-    Known_C10_7 evs = false ->
     let h := h_run h0 evs in
     h_sess h = Some s -> In r (h_rib h) -> r_sess r = s_gen s ->
     (exists f, e = HEor f) ->
@@ -187,35 +198,19 @@ Check non_negotiated_families_dropped_at_once :
 Print Assumptions non_negotiated_families_dropped_at_once.
 
 (* (f) a hard reset, an admin shutdown, a non-Cease error (and a NOTIFICATION or hold-timer
-       expiry without the N bit) never enters helper mode and retains nothing: on every
-       reachable state outside C10-7 *)
-Theorem non_gr_reasons_retain_nothing_outside_known :
+       expiry without the N bit) never enters helper mode and retains nothing, in every
+       reachable state *)
+Theorem non_gr_reasons_retain_nothing :
   forall (evs : list hevent) (s : session) (rs : reason),
-    Known_C10_7 evs = false ->
     let h := h_run h0 evs in
     h_sess h = Some s -> not_eligible h s rs = true ->
     let h' := h_step h (HDown rs) in
     h_rib h' = [] /\ h_rtimer h' = false /\ h_ltimers h' = [] /\ h_sess h' = None /\ h_gr h' = h_gr h.
-Proof. exact C10_non_gr_reasons_retain_nothing_outside_known. Qed.
-Check non_gr_reasons_retain_nothing_outside_known :
+Proof. exact C10_non_gr_reasons_retain_nothing. Qed.
+Check non_gr_reasons_retain_nothing :
   forall (evs : list hevent) (s : session) (rs : reason),
-    Known_C10_7 evs = false ->
     let h := h_run h0 evs in
     h_sess h = Some s -> not_eligible h s rs = true ->
     let h' := h_step h (HDown rs) in
     h_rib h' = [] /\ h_rtimer h' = false /\ h_ltimers h' = [] /\ h_sess h' = None /\ h_gr h' = h_gr h.
-Print Assumptions non_gr_reasons_retain_nothing_outside_known.
-
-
-Theorem non_gr_reasons_retain_nothing_refuted :
-  exists evs s rs,
-    Known_C10_7 evs = true /\
-    let h := h_run h0 evs in
-    h_sess h = Some s /\ not_eligible h s rs = true /\ h_rib (h_step h (HDown rs)) <> [].
-Proof. exact C10_non_gr_reasons_retain_nothing_refuted. Qed.
-Check non_gr_reasons_retain_nothing_refuted :
-  exists evs s rs,
-    Known_C10_7 evs = true /\
-    let h := h_run h0 evs in
-    h_sess h = Some s /\ not_eligible h s rs = true /\ h_rib (h_step h (HDown rs)) <> [].
-Print Assumptions non_gr_reasons_retain_nothing_refuted.
+Print Assumptions non_gr_reasons_retain_nothing.
